@@ -16,8 +16,10 @@ Mirrors
     ---------------  -------------------------------------------------------------  -------------------------------------------
     lookupUpload     pkg/lookups/lookups.go UploadLookupFile                        form value `name` ≠ "" and utils.IsSimpleFileName(name)
                      filepath.Join(GetLookupPath(), fileName)                       (fix); ".csv" appended unless lower(name) ends in .csv/.csv.gz
-    lookupGet        lookups.go GetLookupFile:168-172   (route {lookupFilename})    none in the handler; fasthttp/router param:
-    lookupDelete     lookups.go DeleteLookupFile:196-200 (route {lookupFilename})   raw path segment, non-empty, contains no '/'
+    lookupGet        lookups.go GetLookupFile           (route {lookupFilename})    fasthttp/router param: raw path segment, non-empty, contains
+    lookupDelete     lookups.go DeleteLookupFile        (route {lookupFilename})    no '/'; in the handler (patch c13-1, PENDING): lower(name) ends
+                     (requests of org 0: config.GetLookupPathForOrg(0) = GetLookupPath();    in .csv / .csv.gz, else "File not found" and no file is touched
+                      org n ≠ 0 works in lookups/<n>/ — decimal digits —, not modelled here)  (before the patch: no check in the handler, lookupGetOld)
     inputlookup      pkg/segment/query/processor/inputlookupcommand.go Process      name ends in ".csv" or ".csv.gz" and
                      (same code: pkg/segment/aggregations/generateevents.go)        utils.IsSimpleFileName(name) (fix)
     aliasFile        pkg/virtualtable/virtualtable.go GetAliases/writeAliasFile/    vtable.IsValidIndexName(index) in AddAliases /
@@ -190,8 +192,17 @@ def lookupUploadOld (d : List Seg) (v : Str) : Option NPath :=
 def lookupUpload (d : List Seg) (v : Str) : Option NPath :=
   if simpleName v then lookupUploadOld d v else none
 
-def lookupGet (d : List Seg) (v : Str) : Option NPath :=
+/-- `hasLookupFileExt` (pkg/lookups/lookups.go, patch c13-1): the lower-cased name ends in ".csv" or ".csv.gz" -/
+def hasLookupExt (v : Str) : Bool :=
+  let l := v.map asciiLower
+  endsWith l csvExt || endsWith l csvGzExt
+
+/-- before patch c13-1: the handler joined every name the router handed over -/
+def lookupGetOld (d : List Seg) (v : Str) : Option NPath :=
   if routeParamOK v then some (lookupJoin d v) else none
+
+def lookupGet (d : List Seg) (v : Str) : Option NPath :=
+  if hasLookupExt v then lookupGetOld d v else none
 
 def lookupDelete (d : List Seg) (v : Str) : Option NPath := lookupGet d v
 
